@@ -37,6 +37,12 @@ TEXTS = ['M31', 'a b', 'semi;colon', 'hash # tag', 'k=v', 'x = y ; z # w', 'a{b'
          'text={nested', 'circle(1,2,3)', 'global color=red', 'UPPER lower', 'tag={t}'.replace('}', ''), 'e', 'α β',
          'fk5; circle', '-', '#', ';', '=', '1 2', 'v1.0', '']
 NUMERIC_TEXTS = ['42', '007', '1e3', '-2.50', 'nan', 'inf', '1_0', ' 12 ', '0', '1', '.5', 'Infinity']
+# characters that Python's str.splitlines() (but not split('\n')) treats as line ends, plus the other
+# Unicode white space: legal inside text={...} / tag={...}; a DS9 region occupies one '\n'-terminated line
+SEP_CHARS = ['\r', '\x0b', '\x0c', '\x1c', '\x1d', '\x1e', '\x1f', '\x85', '\u2028', '\u2029', '\t', '\xa0']
+SEP_TEXTS = [f(c) for c in SEP_CHARS for f in (
+    lambda c: c + 'ab', lambda c: 'a' + c + 'b', lambda c: 'ab' + c, lambda c: c, lambda c: c + c + 'x' + c,
+    lambda c: 'p;' + c + '# q=' + c + 'r')] + ['\r\x0b\x0c', 'a\u2028b\u2029c\x85', '\x1c\x1d\x1e\x1f']
 TAGS = ['t1', 'group 2', 'a=b', 'x#y', 'Tag', 'sources', '1', '2.5', 'it\'s', 'q"r']
 COLORS = ['red', 'green', 'blue', 'cyan', 'magenta', 'yellow', 'white', 'black', '#ff0000', '#00FF7f', '#abc', 'Orange']
 FONTNAMES = ['helvetica', 'times', 'courier']
@@ -395,7 +401,8 @@ class Check(PropertyCheck):
             'values, random doubles; pixel numbers given as Python int/float or NumPy float64/float32/int64/int32/int16 '
             'scalars, coordinates also as 0-d arrays; '
             'values, random doubles) x sky units {deg, arcmin, arcsec, rad} x meta/visual vocabulary (include '
-            'True/False/1/0, text with spaces ; # = quotes, numeric-looking text, 1..3 tags, colour names and #hex, '
+            'True/False/1/0, text with spaces ; # = quotes, numeric-looking text, text/tags containing \\r \\v \\f FS GS RS US NEL '
+            'U+2028 U+2029 tab NBSP at the start / in the middle / at the end / alone / repeated, 1..3 tags, colour names and #hex, '
             'face/edgecolor, linewidth int/float, fill, font fields, dashed / dash tuples, markers incl. Path markers, '
             'markersize, markeredgewidth, rotation, DS9-style keys, non-DS9 keys) x shared metadata (hoisting) x '
             'inexpressible regions (compound pixel/sky, frames without DS9 name) injected at every position; tiny sizes '
@@ -458,10 +465,13 @@ class Check(PropertyCheck):
         if r() < 0.45:
             meta.append(['include', rng.choice([{'bool': True}, {'bool': False}, {'int': '1'}, {'int': '0'}])])
         if r() < 0.35:
-            t = rng.choice(NUMERIC_TEXTS) if r() < 0.12 else rng.choice(TEXTS)
+            t = rng.choice(NUMERIC_TEXTS) if r() < 0.12 else rng.choice(SEP_TEXTS) if r() < 0.25 else rng.choice(TEXTS)
             meta.append(['text', {'str': t}])
         if r() < 0.35:
-            meta.append(['tag', {'strs': rng.sample(TAGS, rng.randint(1, 3))}])
+            tags = rng.sample(TAGS, rng.randint(1, 3))
+            if r() < 0.25:
+                tags[rng.randrange(len(tags))] = rng.choice(SEP_TEXTS)
+            meta.append(['tag', {'strs': tags}])
         if r() < 0.15:
             meta.append([rng.choice(BINARY_META), {'int': str(rng.randint(0, 1))}])
         if r() < 0.06:
@@ -612,7 +622,8 @@ class Check(PropertyCheck):
         elif cls in ('point', 'text'):
             spec['coords'] = [coord()]
         if cls == 'text':
-            spec['text'] = rng.choice(NUMERIC_TEXTS) if rng.random() < 0.08 else rng.choice(TEXTS)
+            spec['text'] = rng.choice(NUMERIC_TEXTS) if rng.random() < 0.08 else \
+                rng.choice(SEP_TEXTS) if rng.random() < 0.25 else rng.choice(TEXTS)
         if tiny and nums and cls not in ('regularpolygon',):
             # F19 class: a size (or an annulus gap) below the printed precision
             eps = Fraction(1, 10 ** p) * Fraction(rng.choice([1, 2, 3, 4, 6, 9]), 20)
